@@ -677,3 +677,90 @@ def r18g(R):
                 'name it reports: a captured script names it by get_name() '
                 'and the look-up misses it, so replay skips the light' % why,
                 line=line)
+
+
+# ---------------------------------------------------------------- R16.m
+TOKEN = 'bardolph.parser.token'
+CLOCKMOD = 'bardolph.lib.clock'
+
+
+@rule('R16.m', ('C16', 'C18', 'C19'), 'the text of a string token is its '
+      'content, also when the content is empty', floor=2,
+      decides='`""` compiles to the empty string wherever a string may '
+              'stand, not to the name of the token class')
+def r16m(R):
+    from ..const import Unfoldable
+    A = R.A
+    f = A.func(TOKEN, 'Token.__str__')
+    for label, content in (('empty', ''), ('one blank', ' ')):
+        try:
+            got = A.peval(f, {'self._token_type.has_string()': True,
+                              'self._token_type.name': 'LITERAL_STRING',
+                              'self._content': content,
+                              'self.content': content})
+        except Unfoldable as ex:
+            raise AnalysisError('Token.__str__ does not evaluate for a '
+                                'string token: %s' % ex)
+        R.check(f, 'string token, content %s' % label, got == content,
+                'str() of a string token whose content is %r gives %r: the '
+                'parser builds string constants with str(token), so `""` '
+                'compiles to that text' % (content, got))
+
+
+# ---------------------------------------------------------------- R20.r
+@rule('R20.r', ('C20',), 'manifest text is escaped for attribute positions '
+      'too (quotes included)', floor=3,
+      decides='a title / path / colour containing a quote character cannot '
+              'close the attribute it is written into on the pages')
+def r20r(R):
+    A = R.A
+    n = 0
+    for f in A.repo.all_functions('web'):
+        for c in A.calls_in(f):
+            if norm(c.func) not in ('html.escape', 'escape'):
+                continue
+            n += 1
+            q = [k.value for k in c.keywords if k.arg == 'quote']
+            if len(c.args) > 1:
+                q.append(c.args[1])
+            val = A.try_fold(q[0], f, default='?') if q else True
+            R.check(f, norm(c), val is True,
+                    'html.escape is called with quote=%s: " and \' reach the '
+                    'page unescaped, and the templates write these values '
+                    'inside style="..." / id="..." attributes'
+                    % (norm(q[0]) if q else 'True'), line=c.lineno)
+    if not n:
+        raise AnalysisError('no html.escape call found in web/')
+
+
+# ---------------------------------------------------------------- R08.k
+@rule('R08.k', ('C08', 'C09'), 'a stopped clock still wakes the thread that '
+      'waits on it', floor=1,
+      decides='a script stopped inside a timed wait returns from execute(): '
+              'the completion callback runs and the queue moves on')
+def r08k(R):
+    A = R.A
+    stop = A.func(CLOCKMOD, 'Clock.stop')
+    run = A.func(CLOCKMOD, 'Clock.run')
+
+    def wakes(f, c):
+        return 'Clock.fire' in A.callee_names(f, c) or (
+            isinstance(c.func, ast.Attribute) and c.func.attr == 'set'
+            and 'event' in norm(c.func.value).lower())
+    if any(wakes(stop, c) for c in A.calls_in(stop)):
+        R.check(stop, 'stop() wakes the waiter', True, '')
+        return
+    cfg = A.cfg(run)
+    fires = [n for n in cfg.nodes if any(wakes(run, c) for c in n.calls())]
+    sleeps = [n for n in cfg.nodes if any(
+        norm(c.func).split('.')[-1] == 'sleep' for c in n.calls())]
+    if not fires or not sleeps:
+        raise AnalysisError('Clock.run: sleep / fire not found')
+    starts = [m for n in sleeps for m, _l in n.succs]
+    p = cfg.find_path(starts, lambda n: n is cfg.exit, avoid=fires)
+    R.check(run, 'sleep -> fire() before the ticker ends', p is None,
+            'after its sleep the ticker can end without a tick, and stop() '
+            'does not wake the waiter either: a script stopped inside a '
+            'wait stays blocked in Clock.wait(), execute() never returns '
+            'and the jobs behind it never start',
+            path=path_text(p) if p else None)
